@@ -37,11 +37,13 @@ type voOp struct {
 	Toc int `json:"toc"`
 	B1  int `json:"b1"`
 	N   int `json:"n"`
+	Ok  bool `json:"ok"`
 }
 
 type voVec struct {
 	ID         int       `json:"id"`
 	API        string    `json:"api"` // New | NewWith | Writer | WriterSeek
+	Buf        string    `json:"buf"` // fresh | shared
 	Tracks     []voTrack `json:"tracks"`
 	Ops        []voOp    `json:"ops"`
 	ModelPages int       `json:"model_pages"`
@@ -480,24 +482,49 @@ func voBehaviour(t *testing.T, tr *vkTrace, dir string, v voVec) {
 		expVendor[0] = defaultVendor
 	}
 
-	// ---- packets
+	// ---- packets. The packet domain includes what the writers refuse (code 3 without / with zero / with too large a
+	// frame count) or ignore (empty payload). With buf = "shared" the driver behaves like an application with one
+	// receive buffer: every payload is a slice of it, and it is overwritten right after WriteRTP returns (the next
+	// network read) and again before Close.
 	written := make([][]voWritten, nt)
-	werrs := 0
+	refusedBy := make([]int, nt)
+	werrs, acceptDrift := 0, 0
 	seq := uint16(r.Intn(65536)) //nolint:gosec
-	for _, op := range v.Ops {
+	shared := v.Buf == "shared"
+	var recv []byte
+	if shared {
+		maxN := 1
+		for _, op := range v.Ops {
+			maxN = max(maxN, op.N)
+		}
+		recv = make([]byte, maxN)
+	}
+	scribble := func(k int) {
+		for i := range recv {
+			recv[i] = byte(0xA5 + i + k)
+		}
+	}
+	for k, op := range v.Ops {
 		ti := op.T - 1
 		n := op.N
-		if op.Toc%4 == 3 && n < 2 {
-			n = 2
+		var pkt []byte
+		if shared {
+			pkt = recv[:n]
+		} else {
+			pkt = make([]byte, n)
 		}
-		pkt := make([]byte, n)
 		for i := range pkt {
 			pkt[i] = byte(r.Intn(256))
 		}
-		pkt[0] = byte(op.Toc)
-		if op.Toc%4 == 3 {
-			pkt[1] = byte(op.B1)
+		b1 := 0
+		if n >= 1 {
+			pkt[0] = byte(op.Toc)
 		}
+		if op.Toc%4 == 3 && n >= 2 {
+			pkt[1] = byte(op.B1)
+			b1 = op.B1
+		}
+		h := voHash(pkt)
 		ssrc := uint32(5000 + ti) //nolint:gosec
 		p := &rtp.Packet{Header: rtp.Header{Version: 2, PayloadType: 111, SequenceNumber: seq, Timestamp: uint32(seq) * 960,
 			SSRC: ssrc}, Payload: pkt}
@@ -508,22 +535,25 @@ func voBehaviour(t *testing.T, tr *vkTrace, dir string, v voVec) {
 		} else {
 			e = tracks[ti].WriteRTP(p)
 		}
+		if shared {
+			scribble(k)
+		}
+		accepted := e == nil && n > 0
+		if accepted != op.Ok {
+			acceptDrift++ // generative model and code disagree on what is a valid packet: recorded, not judged
+		}
 		if e != nil {
 			werrs++
+		}
+		if !accepted {
+			refusedBy[ti]++
 
 			continue
 		}
-		written[ti] = append(written[ti], voWritten{n: n, h: voHash(pkt), toc: op.Toc, b1: op.B1 * (op.Toc % 4 / 3)})
-		// an empty RTP payload in between is ignored by the writers
-		if r.Intn(6) == 0 {
-			empty := &rtp.Packet{Header: rtp.Header{Version: 2, PayloadType: 111, SequenceNumber: seq, SSRC: ssrc}, Payload: []byte{}}
-			seq++
-			if legacy != nil {
-				_ = legacy.WriteRTP(empty)
-			} else {
-				_ = tracks[ti].WriteRTP(empty)
-			}
-		}
+		written[ti] = append(written[ti], voWritten{n: n, h: h, toc: op.Toc, b1: b1})
+	}
+	if shared {
+		scribble(len(v.Ops) + 1)
 	}
 	cerr := ""
 	if legacy != nil {
@@ -635,7 +665,8 @@ func voBehaviour(t *testing.T, tr *vkTrace, dir string, v voVec) {
 		tr.Emit(vkM{"ev": "stream", "t": v.ID, "sig": sig, "api": v.API, "sink": sink, "tr": i + 1, "ntracks": nt,
 			"npages": len(perTrack[i]), "wr": wr, "rec": rec, "nrec": len(packets), "dangling": dangling,
 			"hdr_exp": voExpHeader(chans[i], preskips[i], v.Tracks[i].Rate, expVendor[i], expComments[i]),
-			"hdr_got": voGotHeader(packets), "ch": v.Tracks[i].Ch, "tag": v.Tracks[i].Tag})
+			"hdr_got": voGotHeader(packets), "ch": v.Tracks[i].Ch, "tag": v.Tracks[i].Tag, "buf": v.Buf,
+			"refused": refusedBy[i]})
 	}
 	// pages that do not carry the two header packets (their sizes are abstract in the generative model)
 	ndata := len(pages)
@@ -655,5 +686,6 @@ func voBehaviour(t *testing.T, tr *vkTrace, dir string, v voVec) {
 	}
 	tr.Emit(vkM{"ev": "file", "t": v.ID, "sig": "file(" + v.API + ")", "api": v.API, "sink": sink, "npages": len(pages),
 		"rest": rest, "unknown_serial": unknown, "rdend": rdEnd, "werrs": werrs, "cerr": cerr, "nw_ok": nwOK,
-		"bytes": len(data), "model_pages": v.ModelPages, "ndata": ndata, "model_data_pages": v.ModelData})
+		"bytes": len(data), "model_pages": v.ModelPages, "ndata": ndata, "model_data_pages": v.ModelData,
+		"buf": v.Buf, "accept_drift": acceptDrift, "ops": len(v.Ops)})
 }
